@@ -6,7 +6,7 @@ Relation monitor over groups of recorded calls on the real solver.
 ID = "C06"
 LEVEL = "exploration"
 RULE = (
-    "seeded random set-ups (dx != dy, non-square, all profile kinds, full/truncated/over-requested modes) inside the conditioning guard; "
+    "seeded random set-ups (dx != dy, non-square, even and odd sizes, all profile kinds, full/truncated/over-requested modes) inside the conditioning guard; "
     "integer shifts incl. 0, +-1, n-1 and wrap-around, independent in x and y; per case: (a) S(roll(q0,s)) == roll(S(q0),s) [halo=0], "
     "(b) F(m+s) == roll(F(m),s) [halo=0], (c) F_m == point reflection about m of the response to a unit source at m [halo=0], "
     "(d) dispersion mode with an on-grid non-zero measurement point on even grids re-centres the output: out[j,i] == field[j+jm-ny/2, "
@@ -35,7 +35,8 @@ def run_case(case):
     viol, resid, sigs = [], {}, []
     counters = {"solver_calls": 0, "recentre_overlap_cells": 0}
     # ---------------- (a)-(c) and (d) on the periodic domain (halo = 0)
-    St, _ = gen.draw_setup(rng, halo_classes=("zero",), even=True)
+    odd_grid = bool(rng.random() < 0.3)  # translation and reflection hold for any parity; only re-centring needs even sizes
+    St, _ = gen.draw_setup(rng, halo_classes=("zero",), even=not odd_grid)
     if St is None:
         return {"evals": 0, "nontrivial": False, "skipped": "no draw inside the conditioning guard"}
     nx, ny, dx, dy = St["nx"], St["ny"], St["dx"], St["dy"]
@@ -91,7 +92,9 @@ def run_case(case):
     cmp("footprint_is_point_reflection_of_unit_response", F0, Rf[:, jj][:, :, ii], dict(field="flx", point=(im, jm)), floor=sfu)
     cmp("footprint_is_point_reflection_of_unit_response", G0, Rc[:, jj][:, :, ii], dict(field="conc", point=(im, jm)), floor=scu)
     sigs.append(f"{case['idx']}|c")
-    # (d) periodic
+    # (d) periodic (even sizes only: for odd sizes xmax/2 is not on the grid)
+    if nx % 2 or ny % 2:
+        return finish(St, desc, prec, lkind, "skipped_odd", sigs, resid, counters, viol, case, nl, (sx, sy), (im, jm), (tx, ty), None, levels)
     im_, jm_ = int(rng.integers(nx)), int(rng.integers(ny))
     if im_ == 0 and jm_ == 0:
         im_ = 1
@@ -155,8 +158,15 @@ def run_case(case):
                 viol.append(dict(what="footprint_is_point_reflection_of_unit_response", field=nm, rel=e, tol=tolr, precision=prec, point=(it, jt),
                                  halo=Sh["halo"], setup=gen.describe(Sh)))
         sigs.append(f"{case['idx']}|ch")
+    return finish(St, desc, prec, lkind, hb, sigs, resid, counters, viol, case, nl, (sx, sy), (im, jm), (tx, ty), (im_, jm_), levels)
+
+
+def finish(St, desc, prec, lkind, hb, sigs, resid, counters, viol, case, nl, sshift, tower, tshift, rpoint, levels):
+    from vlib import gen
+
     b = {f"prec:{prec}": 1, f"modes:{St['mode_class']}": 1, f"profiles:{St['pdesc'].get('closure', St['pdesc']['kind'])}": 1,
-         f"recentre_halo:{hb}": 1, f"levels:{lkind}": 1, gen.gbucket(St["G"]): 1}
+         f"recentre_halo:{hb}": 1, f"levels:{lkind}": 1, gen.gbucket(St["G"]): 1,
+         f"parity:{'even' if St['nx'] % 2 == 0 and St['ny'] % 2 == 0 else 'odd'}": 1}
     return {"evals": 9 * nl + 2, "nontrivial": bool(sigs), "sig": sigs, "buckets": b, "resid": resid, "counters": counters,
-            "violations": viol, "sample": {"setup": desc, "source_shift": (sx, sy), "tower": (im, jm), "tower_shift": (tx, ty),
-                                           "recentre_point": (im_, jm_), "levels": levels, "precision": prec}}
+            "violations": viol, "sample": {"setup": desc, "source_shift": sshift, "tower": tower, "tower_shift": tshift,
+                                           "recentre_point": rpoint, "levels": levels, "precision": prec}}
